@@ -102,6 +102,9 @@ fn stripped_comment_verdict(stripped_sv: &str, stream: &[(String, bool, veryl_pa
     if left.is_empty() {
         return "ok";
     }
+    if std::env::var("HX_DUMP").is_ok() {
+        eprintln!("LEFT {:?}\nEMBED {:?}", left, embed_comments(stream));
+    }
     let mut imp = import_trailing_comments(stream);
     for c in &left {
         match imp.iter().position(|x| x == c) {
@@ -578,6 +581,50 @@ pub fn main(opts: &Opts) -> i32 {
     }
     let mut r = Rng::new(seed);
     let corpus: emitctx::FileSet = emitctx::testcases().into_iter().filter(|x| !emitctx::needs_outside(&x.0)).collect();
+    // two deterministic extra projects (rounds 100, 101): multi-byte text in every string literal (anchored
+    // multi-byte tokens followed by further anchors on the line); a comment after every separator
+    for (round, kind) in [(100u64, "mb"), (101u64, "sep")] {
+        let corpus2 = corpus.clone();
+        let h = std::thread::Builder::new()
+            .stack_size(256 << 20)
+            .spawn(move || {
+                let mut n = 0u64;
+                let v: emitctx::FileSet = corpus2
+                    .iter()
+                    .map(|(name, src)| {
+                        let m = if kind == "mb" {
+                            emitctx::mb_strings_mutant(src, name)
+                        } else {
+                            emitctx::separator_mutant(src, name, true).or_else(|| emitctx::separator_mutant(src, name, false))
+                        };
+                        match m {
+                            Some(m) => {
+                                n += 1;
+                                (name.clone(), m)
+                            }
+                            None => (name.clone(), src.clone()),
+                        }
+                    })
+                    .collect();
+                (v, n)
+            })
+            .unwrap();
+        let (v, n) = h.join().unwrap();
+        log.add(&format!("mutated_files_{kind}"), n);
+        let files: emitctx::FileSet = v.into_iter().take(limit).collect();
+        match run_project(files, round, seed, nlayout, render_every) {
+            Ok((lines, stats)) => {
+                for l in lines {
+                    log.push3(l.op, l.imp, l.oracle);
+                }
+                for (k, v) in stats {
+                    log.add(&k, v);
+                }
+                log.count("projects");
+            }
+            Err(e) => log.count(&format!("project_failed_{e}")),
+        }
+    }
     for round in 0..=rounds {
         let files: emitctx::FileSet = if round == 0 {
             corpus.clone()
